@@ -67,6 +67,67 @@ let coq_string_to_ocaml (s : Model.string) : str =
   let rec go acc = function EmptyString -> acc | String (c, r) -> go (acc ^ S.make 1 (Char.chr (int_of_n (n_of_ascii c)))) r in go "" s
 let opt_str = function None -> "-" | Some s -> S.concat "" (S.split_on_char ' ' (coq_string_to_ocaml s))
 
+(* ---- server schedules *)
+let srv_case ts : str =
+  let _cache = ti ts in
+  let nv = ti ts in
+  let vers = L.init nv (fun _ ->
+    let _id = ti ts in let name = tn ts in let tag = tn ts in let minz = tn ts in let maxz = tn ts in let req = tn ts in
+    let ro = tn ts in let rl = tn ts in let lb = tn ts in let tb = tn ts in
+    let nd = ti ts in
+    let dirs = L.init nd (fun _ -> let o = tn ts in let l = tn ts in let ok = ti ts in let raw = bytes_of_hex (tok ts) in
+                                   ((o, l), if ok = 1 then Some raw else None)) in
+    let file = bytes_of_hex (tok ts) in
+    (name, { c_tag = tag; c_minz = minz; c_maxz = maxz; c_ext = req; c_root = (ro, rl); c_leaf_base = lb; c_tile_base = tb; c_dirs = dirs; c_file = file })) in
+  let _e = tok ts in let _n = ti ts in
+  let name_str n = "a" ^ string_of_n n in
+  let tag_str t = (match t with N0 -> "" | _ -> "v" ^ string_of_n t) in
+  let st = ref (init cVersion) in
+  let printed = ref 0 in
+  let out = ref [] in
+  let dead = ref false in
+  (* steps are separated by ";" tokens *)
+  let rec steps () =
+    match ts.t with
+    | [] -> ()
+    | ";" :: r -> ts.t <- r; steps ()
+    | _ ->
+      let kind = tok ts in
+      let ms = (match kind with
+        | "S" -> let rid = ti ts in let name = tn ts in let z = tn ts in let x = tn ts in let y = tn ts in let ext = tn ts in
+                 Some (MStart (nat_of_int rid, name, z, x, y, ext))
+        | "R" -> let name = tn ts in let tag = tn ts in let o = tn ts in let l = tn ts in
+                 (* optional fault kind *)
+                 (match ts.t with
+                  | f :: r when f <> ";" -> ts.t <- r;
+                    let k = (match f with "error" -> FError | "notfound" -> FNotFound | "refresh412" | "refresh416" -> FRefresh
+                                        | "canceled" -> FCanceled | "midstream" -> FMidstream | _ -> FBadBytes) in
+                    Some (MFault (name, tag, o, l, k))
+                  | _ -> Some (MRelease (name, tag, o, l)))
+        | "X" -> let vid = ti ts in let (name, v) = L.nth vers vid in Some (MReplace (name, v))
+        | "D" -> Some (MDelete (tn ts))
+        | _ -> None) in
+      (match ms with
+       | None -> dead := true
+       | Some m ->
+         if not !dead then
+           (match macro !st m with
+            | Some s' -> st := s'
+            | None -> dead := true));
+      if !dead then out := "REJECT" :: !out
+      else begin
+        let calls = L.sort compare (L.map (fun (((n, e), o), l) -> S.concat "/" [name_str n; tag_str e; string_of_n o; string_of_n l]) (pending_calls !st)) in
+        let dones = L.rev (!st).dones in
+        let fresh = L.filteri (fun i _ -> i >= !printed) dones in
+        printed := L.length dones;
+        let dn = L.sort compare (L.map (fun ((rid, _q), r) -> let (stt, body) = status_body r in
+                    ignore rid; S.concat ":" [string_of_n stt; (if int_of_n stt = 200 then hex_of_bytes body else "-")]) fresh) in
+        out := ("calls=[" ^ S.concat "," calls ^ "] done=[" ^ S.concat "," dn ^ "]") :: !out
+      end;
+      steps () in
+  steps ();
+  S.concat " | " (L.rev !out)
+
 let run_case (line:str) : str =
   let ts = { t = L.filter (fun s -> s <> "") (S.split_on_char ' ' line) } in
   match tok ts with
@@ -204,6 +265,7 @@ let run_case (line:str) : str =
                              @ L.map string_of_z t.tj_bounds @ L.map string_of_z t.tj_center))]
     else if st = 304 then "304 - - " ^ (if r.rs_etag then "1" else "0") ^ " -"
     else Printf.sprintf "%d - - 0 -" st
+  | "srv" -> srv_case ts
   | op -> "unknown-op " ^ op
 
 let () =
